@@ -311,6 +311,7 @@ func (c *conn) dictionary() *dict.Parser {
 // It implements the Conn and CloseNotifier interfaces.
 type response struct {
 	mu   sync.Mutex      // guards conn and Write
+	mmu  sync.Mutex      // held while a message is written, across the retries of WriteToWithRetry
 	conn *conn           // socket, reader and writer
 	xmu  sync.Mutex      // guards ctx
 	ctx  context.Context // context for this Conn
@@ -333,6 +334,14 @@ func (w *response) Write(b []byte) (int, error) {
 	// transient error could not be resumed (see WriteToWithRetry).
 	return w.conn.rwc.Write(b)
 }
+
+// lockMessage keeps the messages of other goroutines out until
+// unlockMessage: Message.WriteTo and its variants hold it for the whole
+// message, also between the attempts of a write that is resumed after a
+// temporary error. (Write and WriteStream calls of their own only exclude
+// each other for the duration of one call.)
+func (w *response) lockMessage()   { w.mmu.Lock() }
+func (w *response) unlockMessage() { w.mmu.Unlock() }
 
 // WriteStream of MultistreamWriter interface
 func (w *response) WriteStream(b []byte, stream uint) (int, error) {
